@@ -72,6 +72,7 @@ CONSTANTS
   QueriesPerReader = 1
   LockBeforeBump = {'TRUE' if fixed else 'FALSE'}
   DropSessions = TRUE
+  EarlyRelease = FALSE
   Emit = TRUE
 CHECK_DEADLOCK FALSE
 """)
@@ -89,6 +90,7 @@ CONSTANTS
   QueriesPerReader = 2
   LockBeforeBump = {'TRUE' if fixed else 'FALSE'}
   DropSessions = TRUE
+  EarlyRelease = FALSE
   Emit = TRUE
 CHECK_DEADLOCK FALSE
 """)
@@ -229,6 +231,10 @@ def selftest(seed):
     mc = vp.tlc("EnginePhase", cfg="EnginePhase_asis.cfg", workers=2, timeout=300, check_ok=False)
     ok1 = "ReaderSeesSnap" in mc["invariant_violated"]
     print(f"selftest {PID}: model with bump-before-lock violates ReaderSeesSnap: {ok1}")
+    mc2 = vp.tlc("EnginePhase", cfg="EnginePhase_mut_earlyrelease.cfg", workers=2, timeout=300, check_ok=False)
+    ok1b = "ReaderSeesSnap" in mc2["invariant_violated"]
+    print(f"selftest {PID}: model whose dropped session releases the guard before propagating violates ReaderSeesSnap: {ok1b}")
+    ok1 = ok1 and ok1b
     ts = os.path.join(wd, "s.ndjson")
     vp.run_subject([os.path.join(bd, "eng_phase"), "--mode", "stress", "--readers", "2", "--millis", "100",
             "--rounds", "1", "--out", ts], timeout=120)
